@@ -131,6 +131,14 @@ class World:
         out.append(named(um.m_conditional(c, u, v), "conditional(f<g,u,v)"))
         i4 = new_index()
         out.append(named(um.m_component_tensor(um.m_indexed(R, MI((i4, 1, self.k))), MI((i4,))), "as_tensor(R[i,1,k],(i,)) (k free)"))
+        # a list tensor whose rows have a free index, indexed by another index: component tensors binding either one or both
+        i7, k7 = new_index(), new_index()
+        L = um.m_list_tensor(um.m_indexed(u, MI((i7,))), um.m_indexed(v, MI((i7,))))
+        Lk = um.m_indexed(L, MI((k7,)))
+        out.append(named(um.m_component_tensor(Lk, MI((i7,))), "as_tensor([u[i],v[i]][k],(i,)) (k free)"))
+        out.append(named(um.m_component_tensor(Lk, MI((k7,))), "as_tensor([u[i],v[i]][k],(k,)) (i free)"))
+        out.append(named(um.m_component_tensor(Lk, MI((i7, k7))), "as_tensor([u[i],v[i]][k],(i,k))"))
+        out.append(named(um.m_component_tensor(Lk, MI((k7, i7))), "as_tensor([u[i],v[i]][k],(k,i))"))
         return out
 
 
